@@ -720,9 +720,10 @@ func (s *AbsfsNFS) RenameWithContext(ctx context.Context, oldDir *NFSNode, oldNa
 	if err != nil {
 		return fmt.Errorf("rename: failed to rename %s to %s: %w", oldPath, newPath, err)
 	}
-	// Invalidate caches and negative cache entries
-	s.attrCache.Invalidate(oldPath)
-	s.attrCache.Invalidate(newPath)
+	// Invalidate caches and negative cache entries. A renamed directory takes
+	// its whole subtree with it, so drop everything cached at or below both names.
+	s.attrCache.InvalidateTree(oldPath)
+	s.attrCache.InvalidateTree(newPath)
 	s.attrCache.Invalidate(oldDir.path)
 	s.attrCache.Invalidate(newDir.path)
 	// Invalidate negative cache entries in both directories
@@ -731,6 +732,8 @@ func (s *AbsfsNFS) RenameWithContext(ctx context.Context, oldDir *NFSNode, oldNa
 	if s.dirCache != nil {
 		s.dirCache.Invalidate(oldDir.path)
 		s.dirCache.Invalidate(newDir.path)
+		s.dirCache.InvalidateTree(oldPath)
+		s.dirCache.InvalidateTree(newPath)
 	}
 	return nil
 }
